@@ -740,6 +740,12 @@ pub fn sweep(ctx: &Ctx, plan: &SweepPlan, rep: &mut Report, checker: &Checker) -
     // one identifier of every canonical length (fixed-size buffers, length fast paths)
     spaces.push(Box::new(ListSpace { label: "E2.ladder".into(), items: length_ladder(if ctx.quick() { 300 } else { 1100 }, !plan.langid_only),
         what: "for every byte length up to 300 [1100]: identifiers of exactly that canonical length (4 language-id prefixes filled with distinct unsorted variants; for locales also with the length spent on attributes, keyword values, tfield values, tlang variants and private tags)".into() }));
+    // count ladder: every list position of the grammar at every element count, in every order shape
+    {
+        let (n_max, rep_max) = super::counts::count_bounds(ctx);
+        spaces.push(Box::new(ListSpace { label: "E2.count".into(), items: super::counts::count_inputs(n_max, rep_max, !plan.langid_only),
+            what: format!("count ladder: for every list position (variants, tlang variants, attributes, keyword values, keywords, tfield values, tfields, private tags) and every n in 0..={} a list of n distinct generated elements in the orders ascending / descending / every rotation / a fixed scramble, and (n <= {}) with a second copy of element i inserted at position j for every i, j; the asc/desc/scramble shapes also in UPPER case with '_' and with a single '_'", n_max, rep_max) }));
+    }
     // order hazards: subtag lists on which the lexicographic order differs from the integer,
     // length-first and reversed orders
     spaces.push(Box::new(ListSpace { label: "E4.order".into(), items: order_inputs(),
@@ -874,6 +880,7 @@ pub fn run_c13(ctx: &Ctx) -> Report {
         rep.engine_failures.push("vacuity guard: no accepted inputs".into());
     }
     let sum = super::history::run_harnesses(ctx, if ctx.quick() { &["H-id", "H-cross-s"] } else { &["H-id", "H-cross"] }, &["c13."], &mut rep, false);
+    super::counts::run_count_histories(ctx, &mut rep, &["c13."]);
     super::history::fill_report(&mut rep, &sum, "C13: the conversions Locale <-> LanguageIdentifier on every reachable value");
     rep.rule = "E1 + E2 spaces; both parsers run on the same bytes (differential, no external oracle except 'well-formed' for clause 2); conversions checked on every accepted value and on every state of the E3 harnesses H-id and H-cross (where Locale -> LanguageIdentifier -> Locale is also an action). Non-trivial = at least one of the two parsers accepts (plus distinct E3 model values).".into();
     rep
